@@ -428,6 +428,47 @@ def ev_params(facts):
     return dict((k, tuple(v)) for k, v in res.items()), n
 
 
+def slot_shift_semantics(facts, kind):
+    """the measured / post-selected wire leaves the qubit -> output-slot map: evaluated for every one of the six maps on three wires (a SWAP makes the
+    map non-monotone) and every qubit.  Afterwards the qubit is forgotten, its output slot is gone, every slot above it moved down by one and the
+    remaining qubits still point at their own outputs.  -> (ok, detail)"""
+    import itertools
+    key = 'gate::Gate::add_to_graph'
+    f = facts['fns'][key]
+    ps = [p for p in f['params'] if p.get('k') == 'Bind']
+    if [p['name'] for p in ps][:4] != ['self', 'fresh_var', 'graph', 'qs'] or len(ps) != 5:
+        raise minirust.NoEval('signature of add_to_graph')
+    n = 0
+    for perm in itertools.permutations(range(3)):
+        for q in range(3):
+            log = []
+            g, outputs = _measure_host(log)
+            before = list(outputs)
+            own = minirust.Obj('parity', {'is_empty': lambda a: False, 'is_zero': lambda a: False}, strict=False)
+            own.methods['clone'] = lambda a, o=own: o
+            gate = {'__struct__': 'gate::Gate', 't': ('const', 'gate::GType::' + kind), 'qs': [q], 'phase': 0, 'vars': own}
+            qs = dict(zip(range(3), perm))
+            it = minirust.Interp(fuel=6000, facts=facts, inline=lambda c: c.startswith('gate::Gate::') and c != 'gate::Gate::add_to_graph')
+            it.host_call = lambda c, e, args: ('single', 0) if c == 'params::Parity::single' else ({} if c.endswith('Default::default') else NotImplemented)
+            env = {ps[0]['id']: gate, ps[1]['id']: _Counter(7), ps[2]['id']: g, ps[3]['id']: qs, ps[4]['id']: False}
+            try:
+                it.ev(f['hir'], env)
+            except minirust._Return:
+                pass
+            n += 1
+            slot = perm[q]
+            if kind == 'MeasureReset':
+                want_qs = dict(zip(range(3), perm))
+                ok = qs == want_qs and len(outputs) == 3 and [o for i, o in enumerate(outputs) if i != slot] == [o for i, o in enumerate(before) if i != slot]
+            else:
+                want_qs = dict((k, v - (1 if v > slot else 0)) for k, v in zip(range(3), perm) if k != q)
+                ok = qs == want_qs and outputs == [o for i, o in enumerate(before) if i != slot]
+            if not ok:
+                return False, ('%s of qubit %d with the qubit -> slot map %s: the map becomes %s and the outputs %s; expected the map %s and the outputs %s'
+                               % (kind, q, dict(zip(range(3), perm)), qs, outputs, want_qs, [o for i, o in enumerate(before) if i != slot] if kind != 'MeasureReset' else 'with only slot %d replaced' % slot)), n
+    return True, '', n
+
+
 # uninterpreted guard conditions / early exits present in today's rule bodies (counted 2026-09-26): only ADDITIONAL ones make a mismatch undecided
 BASELINE_OPAQUE = {'basic_rules::remove_pair_unchecked': 4}
 BASELINE_EXITS = {}
